@@ -16,6 +16,48 @@ pub fn exec(it: &mut Interp, toks: &[&str], out: &mut Vec<String>) -> bool {
     group_ops(it, toks, out) || termid_ops(it, toks, out) || crate::ext2::exec(it, toks, out)
 }
 
+/// The group of the given ids, built through one of the crate's public constructors (chosen by
+/// the ids themselves, so that a replay builds it the same way): `From<Vec<u32>>`,
+/// `From<Vec<HpoTermId>>` (as given / ascending with repeated elements), `FromIterator<HpoTermId>`
+/// (as given with the largest id once more at the end / ascending with repeats), `insert` by `insert`.
+/// All of them yield the same sorted duplicate-free set (C12).
+pub fn mk_group(ids: &[u32]) -> HpoGroup {
+    let tid = |v: &[u32]| -> Vec<HpoTermId> { v.iter().map(|x| HpoTermId::from(*x)).collect() };
+    let with_repeats = |v: &[u32]| -> Vec<u32> {
+        let mut w = v.to_vec();
+        if let Some(mx) = v.iter().max() {
+            w.push(*mx);
+        }
+        if v.len() >= 3 {
+            w.push(v[v.len() / 2]);
+        }
+        w
+    };
+    let h = ids.iter().fold(ids.len() as u64, |a, x| (a * 31 + u64::from(*x)) % 1_000_003);
+    match h % 6 {
+        0 => HpoGroup::from(ids.to_vec()),
+        1 => HpoGroup::from(tid(ids)),
+        2 => {
+            let mut w = with_repeats(ids);
+            w.sort_unstable();
+            HpoGroup::from(tid(&w))
+        }
+        3 => tid(&with_repeats(ids)).into_iter().collect(),
+        4 => {
+            let mut w = with_repeats(ids);
+            w.sort_unstable();
+            tid(&w).into_iter().collect()
+        }
+        _ => {
+            let mut g = HpoGroup::new();
+            for x in with_repeats(ids) {
+                g.insert(x);
+            }
+            g
+        }
+    }
+}
+
 fn reg<'a>(it: &'a Interp, r: &str) -> HpoGroup {
     it.regs.get(r).cloned().unwrap_or_default()
 }
